@@ -176,6 +176,11 @@ func (r *Resolver) isCached(consistency openfgav1.ConsistencyPreference, key key
 	return res.Res, true
 }
 
+// usesVisited reports whether ResolveEdge evaluates edge under the request-scoped visited filter.
+func usesVisited(edge *authzGraph.WeightedAuthorizationModelEdge, visited *sync.Map) bool {
+	return visited != nil && (edge.IsPartOfTupleCycle() || edge.GetRecursiveRelation() != "")
+}
+
 const PrefixEdgeCacheKey = "EDGE"
 
 // EdgeCacheKey builds a cache key that uniquely identifies a single edge
@@ -267,7 +272,9 @@ func (r *Resolver) ResolveUnionEdges(ctx context.Context, req *Request, edges []
 	for _, evaluation := range evaluations {
 		pool.Go(func() error {
 			res, err := r.ResolveEdge(ctx, req, evaluation.edge, visited)
-			if err == nil && ctx.Err() == nil {
+			// a negative result computed under the request-scoped visited filter is only
+			// valid for this request: usersets already visited elsewhere were skipped.
+			if err == nil && ctx.Err() == nil && (res.GetAllowed() || !usesVisited(evaluation.edge, visited)) {
 				entry := &ResponseCacheEntry{Res: res, LastModified: time.Now()}
 				r.cache.Set(evaluation.id, entry, r.cacheTTL)
 			}
@@ -559,7 +566,8 @@ func (r *Resolver) ResolveRecursive(ctx context.Context, req *Request, edge *aut
 			res, err = nil, ErrPanicRequest
 		}
 
-		if err == nil && ctx.Err() == nil {
+		// see ResolveUnionEdges: negative results under a visited filter are request-specific
+		if err == nil && ctx.Err() == nil && (visited == nil || res.GetAllowed()) {
 			entry := &ResponseCacheEntry{Res: res, LastModified: time.Now()}
 			r.cache.Set(cacheKey, entry, r.cacheTTL)
 		}
@@ -783,7 +791,7 @@ func (r *Resolver) ResolveEdge(ctx context.Context, req *Request, edge *authzGra
 	}(ctx)
 
 	var visitedObjects *sync.Map
-	if edge.IsPartOfTupleCycle() || edge.GetRecursiveRelation() != "" {
+	if usesVisited(edge, visited) {
 		visitedObjects = visited
 	}
 	// computed edges are solved by the relation node caller
